@@ -50,10 +50,12 @@ def run(ck):
     for g in scope.p_scope(ck, 10 if q else 11, 2, 4):      # "coarse" universe: many items, few distinct small values
         if len(g["vals"]) >= 8 and g["k"] >= 2:
             g = dict(g); g["calls"] = calls_for(g, ("dict", "list"), ilp=False, all_switches=False); g["watchdog"] = 20; groups.append(g)
+    for g in gen.pigeonhole_family():                       # k+1 / k+2 nearly equal items into k = 2..8 bins
+        g["calls"] = calls_for(g, ("dict", "list"), ilp=False, all_switches=False); g["watchdog"] = 20; groups.append(g)
     groups += witness_groups(ck)
     ck.rule = ("TLC enumerates every bag of <=%d values in 0..%d x k<=%d (P-scope); every partitioner (complete greedy under all "
                "16 switch combinations x 3 objectives) is executed on each in dict / list / names+valueof presentation (distinct names, and names repeated for equal items); plus seeded random, "
-               "all-equal, all-zero, k>n families. non-trivial = distinct (bag,k) with >=2 items and >=2 bins") % ((5, 5, 4) if q else (6, 6, 6))
+               "all-equal, all-zero, k>n and pigeonhole (k+1, k+2 nearly equal items into k<=8 bins) families. non-trivial = distinct (bag,k) with >=2 items and >=2 bins") % ((5, 5, 4) if q else (6, 6, 6))
     traces = core.pmap(drive.run_part_group, groups)
     for t in traces:
         ck.evaluations += len(t["res"])
